@@ -21,7 +21,7 @@ def run(ck):
     r3_accumulators(ck, w)
     r4_all_coefficients(ck, w)
     r5_constants(ck, w)
-    eval_nesting(ck, w, 'C10', 'C10.N1')
+    eval_ops(ck, w, 'C10', 'C10.N1')
 
 
 def r3_accumulators(ck, w, rule='C10.R3'):
@@ -280,6 +280,12 @@ PLUMBING = {'clone', 'to_owned', 'borrow', 'as_ref', 'as_mut', 'into_iter', 'ite
             'take', 'skip'}      # (take / skip: their ADDITION is what the narrowing profile N2 reports)
 
 
+ASSERT_MACROS = {'assert', 'assert_eq', 'assert_ne', 'debug_assert', 'debug_assert_eq', 'debug_assert_ne'}
+# spellings of one operation (`unwrap()` / `expect("..")`)
+CANON_CALLEE = {'core::option::Option::expect': 'core::option::Option::unwrap', 'core::result::Result::expect': 'core::result::Result::unwrap',
+                'core::result::Result::expect_err': 'core::result::Result::unwrap_err', 'subtle::CtOption::expect': 'subtle::CtOption::unwrap'}
+
+
 def is_plumbing(c):
     """conversions, borrows and iteration drivers carry no decision of their own: adding or removing one (a needless clone, `iter()` for `into_iter()`, a `for` loop
     for `try_for_each`) is not an operation of the profile — what the loop body or the closure does is"""
@@ -305,8 +311,16 @@ def nesting_profile(f, builtin=False):
                     return x['recv']
         return None
 
-    def rec(n, d):
+    def rec(n, d, under_assert=False, assert_cond=False):
         k = n.get('k')
+        ia = any(m in ASSERT_MACROS for m in (n.get('x') or []))
+        if ia and not under_assert:
+            prof.setdefault('assertion', []).append(d)          # assert!(a == b), assert_eq!(a, b), debug_assert.. : one operation, whatever the macro
+        if ia or (assert_cond and k == 'bin' and n.get('op') in ('==', '!=')):
+            # code of the macro expansion itself (and the top-level comparison handed to assert!): only the user-written operands count
+            for c2 in children(n):
+                rec(c2, d, True, ia and k == 'un' and n.get('op') == '!')
+            return
         if builtin:
             r = emptiness(n)
             if r is None and k == 'un' and n.get('op') == '!' and not n.get('f'):
@@ -319,7 +333,7 @@ def nesting_profile(f, builtin=False):
             c = callee(n)
             if c and not c.startswith(('core::fmt', 'core::panicking', 'std::panicking', 'core::option::Option::Some', 'core::result::Result::Ok')) \
                     and not (builtin and is_plumbing(c)):
-                prof.setdefault(c, []).append(d)
+                prof.setdefault(CANON_CALLEE.get(c, c), []).append(d)
         elif k in ('bin', 'assignop', 'un') and n.get('f'):
             prof.setdefault((n.get('f') or '') + ':' + str(n.get('op')), []).append(d)
         elif builtin and k in ('bin', 'assignop'):
@@ -504,27 +518,36 @@ def eval_nesting(ck, w, prop, rule):
 
 
 OPS_SCOPES = {
-    # property -> (crates, file prefixes): code whose operations (resolved callees, overloaded operators, built-in operators, literals, ...) are profiled.
-    # Scopes overlap on purpose: a file belongs to every property whose behaviour it takes part in.
-    'C19': (['circuits'], ('circuits/src/parsing/', 'circuits/src/instructions/base64.rs')),
-    'C14': (['proofs', 'circuits'], ('proofs/src/poly/', 'proofs/src/utils/arithmetic.rs', 'circuits/src/verifier/kzg.rs')),
+    # property -> (crates, file prefixes): code whose operations (resolved callees, overloaded operators, built-in operators, literals, def-use shape ...) are
+    # profiled.  Scopes overlap on purpose: a file belongs to every property whose behaviour it takes part in; every anchor file of properties.jsonl is covered.
+    'C01': (['proofs', 'zk_stdlib'], ('proofs/src/plonk/', 'proofs/src/poly/', 'proofs/src/circuit/', 'proofs/src/utils/arithmetic.rs', 'proofs/src/transcript/',
+                                      'zk_stdlib/src/utils/plonk_api.rs')),
     'C02': (['proofs'], ('proofs/src/plonk/', 'proofs/src/dev/mod.rs', 'proofs/src/dev/util.rs', 'proofs/src/dev/failure.rs', 'proofs/src/circuit/')),
-    'C01': (['proofs'], ('proofs/src/plonk/', 'proofs/src/poly/', 'proofs/src/circuit/', 'proofs/src/utils/arithmetic.rs')),
-    'C03': (['proofs', 'zk_stdlib'], ('proofs/src/transcript/', 'proofs/src/plonk/verifier.rs', 'proofs/src/plonk/mod.rs', 'zk_stdlib/src/lib.rs')),
-    'C04': (['circuits'], ('circuits/src/field/native/', 'circuits/src/field/decomposition/', 'circuits/src/vec/', 'circuits/src/map/', 'circuits/src/utils/',
-                           'circuits/src/instructions/', 'circuits/src/types')),
-    'C05': (['circuits'], ('circuits/src/field/foreign/', 'circuits/src/biguint/')),
-    'C06': (['circuits'], ('circuits/src/ecc/',)),
-    'C07': (['circuits'], ('circuits/src/hash/',)),
+    'C03': (['proofs', 'zk_stdlib', 'circuits', 'curves'], ('proofs/src/transcript/', 'proofs/src/plonk/verifier.rs', 'proofs/src/plonk/mod.rs', 'proofs/src/poly/kzg/mod.rs',
+                                                            'proofs/src/poly/kzg/msm.rs', 'zk_stdlib/src/lib.rs', 'zk_stdlib/src/utils/plonk_api.rs',
+                                                            'circuits/src/hash/poseidon/poseidon_cpu.rs', 'curves/src/bls12_381/g1.rs', 'curves/src/bls12_381/fq.rs')),
+    'C04': (['circuits', 'zk_stdlib'], ('circuits/src/field/native/', 'circuits/src/field/decomposition/', 'circuits/src/vec/', 'circuits/src/map/', 'circuits/src/utils/',
+                                        'circuits/src/instructions/', 'circuits/src/types', 'zk_stdlib/src/lib.rs')),
+    'C05': (['circuits', 'zk_stdlib'], ('circuits/src/field/foreign/', 'circuits/src/biguint/', 'zk_stdlib/src/lib.rs')),
+    'C06': (['circuits', 'zkir'], ('circuits/src/ecc/', 'circuits/src/instructions/ecc.rs', 'circuits/src/utils/util.rs', 'zkir/src/instructions/operations/into_bytes.rs')),
+    'C07': (['circuits', 'zk_stdlib'], ('circuits/src/hash/', 'circuits/src/instructions/hash.rs', 'circuits/src/instructions/sponge.rs', 'zk_stdlib/src/external/',
+                                        'zk_stdlib/src/lib.rs')),
+    'C08': (['circuits', 'zk_stdlib', 'zkir', 'aggregator', 'proofs'], ('circuits/src/', 'zk_stdlib/src/', 'zkir/src/', 'aggregator/src/', 'proofs/src/plonk/mod.rs')),
+    'C09': (['proofs', 'circuits', 'zk_stdlib'], ('proofs/src/plonk/keygen.rs', 'proofs/src/plonk/prover.rs', 'proofs/src/circuit/', 'proofs/src/dev/cost_model.rs',
+                                                  'circuits/src/field/native/native_chip.rs', 'circuits/src/ecc/', 'circuits/src/vec/', 'circuits/src/map/',
+                                                  'circuits/src/field/foreign/field_chip.rs', 'zk_stdlib/src/lib.rs')),
+    'C14': (['proofs', 'circuits'], ('proofs/src/poly/', 'proofs/src/utils/arithmetic.rs', 'circuits/src/verifier/kzg.rs')),
     'C15': (['proofs', 'circuits', 'zk_stdlib'], ('proofs/src/poly/commitment.rs', 'proofs/src/poly/kzg/', 'circuits/src/verifier/accumulator.rs', 'circuits/src/verifier/msm.rs',
                                                    'zk_stdlib/src/lib.rs')),
-    'C16': (['proofs', 'zk_stdlib', 'zkir', 'aggregator'], ('proofs/src/utils/', 'proofs/src/plonk/mod.rs', 'proofs/src/poly/kzg/', 'proofs/src/plonk/verifier.rs',
-                                                            'proofs/src/plonk/permutation.rs', 'proofs/src/plonk/lookup/verifier.rs', 'proofs/src/plonk/trash/verifier.rs',
-                                                            'proofs/src/plonk/vanishing/verifier.rs', 'proofs/src/plonk/permutation/verifier.rs', 'proofs/src/transcript/',
-                                                            'zk_stdlib/src/utils/', 'zk_stdlib/src/lib.rs', 'zkir/src/', 'aggregator/src/light_aggregator.rs')),
-    'C08': (['circuits', 'zk_stdlib', 'zkir', 'aggregator', 'proofs'], ('circuits/src/', 'zk_stdlib/src/', 'zkir/src/', 'aggregator/src/', 'proofs/src/plonk/mod.rs')),
-    'C17': (['proofs', 'zk_stdlib'], ('proofs/src/plonk/', 'proofs/src/poly/', 'proofs/src/utils/helpers.rs', 'zk_stdlib/src/utils/')),
+    'C16': (['proofs', 'zk_stdlib', 'zkir', 'aggregator', 'curves', 'circuits'],
+            ('proofs/src/utils/', 'proofs/src/plonk/mod.rs', 'proofs/src/poly/kzg/', 'proofs/src/poly/mod.rs', 'proofs/src/plonk/verifier.rs', 'proofs/src/plonk/permutation.rs',
+             'proofs/src/plonk/lookup/verifier.rs', 'proofs/src/plonk/trash/verifier.rs', 'proofs/src/plonk/vanishing/verifier.rs', 'proofs/src/plonk/permutation/verifier.rs',
+             'proofs/src/transcript/', 'zk_stdlib/src/utils/', 'zk_stdlib/src/lib.rs', 'zkir/src/', 'aggregator/src/light_aggregator.rs', 'curves/src/bls12_381/g1.rs',
+             'curves/src/bls12_381/g2.rs', 'curves/src/bls12_381/fq.rs', 'curves/src/serde_impl.rs', 'circuits/src/parsing/serialization.rs')),
+    'C17': (['proofs', 'zk_stdlib'], ('proofs/src/plonk/', 'proofs/src/poly/', 'proofs/src/utils/helpers.rs', 'proofs/src/utils/arithmetic.rs', 'zk_stdlib/src/utils/',
+                                      'zk_stdlib/src/lib.rs')),
     'C18': (['zkir'], ('zkir/src/',)),
+    'C19': (['circuits'], ('circuits/src/parsing/', 'circuits/src/instructions/base64.rs')),
     'C20': (['aggregator', 'circuits'], ('aggregator/src/', 'circuits/src/verifier/')),
 }
 OPS_CONFIGS = ('default', 'truncated')
@@ -576,6 +599,8 @@ def restrict_profile(f):
             unit = e is None or (e.get('k') == 'tup' and not e.get('es'))
             if ok_ctor or unit:
                 prof['early success return'] += 1
+            elif e is not None and e.get('k') == 'call' and (e.get('f') or '').endswith('Result::Err'):
+                prof['early error return'] += 1
     return dict(prof)
 
 
@@ -587,8 +612,7 @@ def mine_ops(w, config='default'):
             continue
         o, r = ops.setdefault(prop, {}), rst.setdefault(prop, {})
         for f in ops_functions(w, prop):
-            if prop not in ('C10', 'C11'):          # the curves crate has its own operation table (nesting.json)
-                o[f['_xid']] = nesting_profile(f, builtin=True)
+            o[f['_xid']] = nesting_profile(f, builtin=True)
             rp = restrict_profile(f)
             if rp:
                 r[f['_xid']] = rp
@@ -632,7 +656,7 @@ def eval_ops(ck, w, prop, rule):
     if any(r == rule for r in ck.rules):
         return
     table = _table('ops.json', prop, ck.config)
-    ck.rule(rule, 'operation profile (rules/ops.json): for every function in ' + ', '.join(OPS_SCOPES[prop][1]) +
+    ck.rule(rule, 'operation profile (rules/ops.json): for every function in ' + (', '.join(OPS_SCOPES[prop][1]) if prop in OPS_SCOPES else 'the curves crate in the scope of this property') +
                   ' and every operation it performs — resolved callees, overloaded operators, the BUILT-IN integer / boolean operators and comparisons, integer literals, `?`, '
                   'casts and range constructors — each site of '
                   'the reference tree still exists at the same or a shallower branch depth.  Index, offset, width and cursor arithmetic (`offset += n`, `i < len`, '
@@ -663,7 +687,8 @@ def eval_restrict(ck, w, prop, rule):
     ref = reference_fn_ids() or frozenset()
     ck.rule(rule, 'iteration domains are not narrowed (rules/restrict.json): no function of ' + (', '.join(OPS_SCOPES[prop][1]) if prop in OPS_SCOPES else 'the curves crate in the scope of this property') + ' gains a construct that narrows an '
                   'iteration or a collection — a restricting iterator adaptor (filter, skip, take, step_by, take_while, filter_map, find, position, nth, split_*), '
-                  'a truncation (truncate, pop, retain, dedup), a sub-slice by a range, a `continue`, a `break` or an early `return Ok(..)` / `return;` — beyond those it has on the reference tree.  '
+                  'a truncation (truncate, pop, retain, dedup), a sub-slice by a range, a `continue`, a `break`, an early `return Ok(..)` / `return;` or a new `return Err(..)` (a rejection the reference tree does not have: the checker cannot tell a '
+                  'redundant rejection from an over-strict one) — beyond those it has on the reference tree.  '
                   'Skipping an element of a protocol fold, of a per-element check or of a table is how one side of a protocol, or one element of a batch, '
                   'silently falls out of what is enforced.  Functions that are new are expanded into their callers first; removing a restriction never fires.')
     n = 0
